@@ -6,6 +6,7 @@ import (
 
 	"github.com/freeconf/yang/meta"
 	"github.com/freeconf/yang/node"
+	"github.com/freeconf/yang/nodeutil"
 	"github.com/freeconf/yang/val"
 )
 
@@ -236,8 +237,14 @@ func (r *RS) Choose(sel *node.Selection, choice *meta.Choice) (*meta.ChoiceCase,
 
 func (r *RS) BeginEdit(node.NodeRequest) error { return nil }
 func (r *RS) EndEdit(node.NodeRequest) error   { return nil }
-func (r *RS) Action(node.ActionRequest) (node.Node, error) {
-	return nil, fmt.Errorf("reference store: no actions")
+// Action reads the whole input (as an implementation would) and answers without output.
+func (r *RS) Action(req node.ActionRequest) (node.Node, error) {
+	if req.Input != nil {
+		if _, err := nodeutil.WriteJSON(req.Input); err != nil {
+			return nil, err
+		}
+	}
+	return nil, nil
 }
 func (r *RS) Notify(node.NotifyRequest) (node.NotifyCloser, error) {
 	return nil, fmt.Errorf("reference store: no notifications")
